@@ -1,5 +1,6 @@
 (* C06 -- placeholder while the development is being built; replaced below *)
 From Coq Require Import List.
 From GY Require Import Model.Schema.
+Import ListNotations.
 Theorem C06_stub : forall e, locate e [] = Some e.
 Proof. intros; reflexivity. Qed.
